@@ -4,9 +4,50 @@ import json, os, subprocess
 ROOT = os.path.dirname(os.path.dirname(os.path.abspath(__file__)))
 
 # id -> (technique, level text, level note, design ref)
+EXPL = "Exploration: verdict is 'held on the executions observed'. "
 CLAIMED = {
+ "C02": ("runtime reference-model monitor: Hll4/Hll6/Hll8 instances vs textbook per-slot-maximum model, state dumped through hooks after every operation; dump invariants and HIP increment law",
+         EXPL + "Generated histories (crafted coupon phases reaching value 63, cur_min shifts with live aux exceptions, hashed items with duplication, permutations) are fed to the real sketches and to an exact model; the full hooked state is compared after every operation for lg_k<=8 and at checkpoints above. State equality for all streams cannot be settled by examples; comparing the whole state after every prefix of thousands of adversarial histories is the strongest oracle this family has.",
+         "Trusted: the HLL model (harness/src/model/hll.rs), the reference MurmurHash3; coupons injected through the hook are assumed reachable by hashing. lg_k 13..21 only in the thorough tier, at checkpoints.",
+         "DESIGN.md 5 (C02)"),
+ "C03": ("runtime reference-model monitor: HllUnion histories vs fold/max union model; to_sketch in all three types, gadget dump, permuted replay",
+         EXPL + "Random union histories over lg_max_k x input (lg_k, type, mode, fresh/round-tripped, in-order/out-of-order) x update_value/reset; after every step the dumps of to_sketch(Hll4|6|8) and of the gadget are compared with the model, estimates and bounds must agree across types and be non-zero, and a permuted/repeated replay must give the same state.",
+         "Trusted: union model in harness/src/mon/c03.rs; inputs are built through the coupon hook (hash-like coupons). Out-of-order inputs come from helper unions, spec-encoded OOO images are covered by C13.",
+         "DESIGN.md 5 (C03)"),
+ "C04": ("runtime reference-model monitor: theta KMV model (set of offered hashes below theta) vs iter()/num_retained/theta after every operation",
+         EXPL + "Histories of update / adversarial hash injection (probe-colliding families, theta+-1, 0, MAX) / trim / reset / compact over lg_k, resize factor, sampling p and seed; cheap invariants after every operation and full entry-set comparison at every change.",
+         "Trusted: KMV model in harness/src/mon/c04.rs and the reference MurmurHash3; injected hashes go through a hook that repeats the library's screen (the screen inside update() itself is exercised by the public lane only).",
+         "DESIGN.md 5 (C04)"),
+ "C05": ("runtime reference-model monitor: CPC bit-matrix model vs hooked matrix, own reconstruction from window+table, validate(), offset/flavor/table/first_interesting_column invariants, KxP and HIP recurrences",
+         EXPL + "The complete natural arrival order of novel coupons (the exact law of a hashed stream) drives each sketch through all five flavors and window offsets 1..56 with every 8th-shift KxP refresh, optionally perturbed (planted surprising ones, delayed surprising zeros, duplicates) inside a stated envelope; hashed public lane in addition.",
+         "Trusted: CPC model (harness/src/model/cpc.rs). Perturbed streams stay inside the envelope of DESIGN.md 2.2. lg_k > 12 only as thorough spot checks.",
+         "DESIGN.md 5 (C05)"),
+ "C06": ("runtime reference-model monitor: CpcUnion histories vs OR-of-folded-matrices model, all C05 invariants on every result, CpcWrapper agreement, permuted replay",
+         EXPL + "Random union histories over union lg_k x inputs of every flavor (exact coupon counts, boundaries favoured), fresh / deserialized / union results; to_sketch after every step.",
+         "Trusted: fold/OR model in harness/src/mon/c06.rs; the ICON estimate itself is only cross-checked against CpcWrapper (its accuracy is C01's).",
+         "DESIGN.md 5 (C06)"),
+ "C07": ("runtime reference-model monitor: exact frequency map vs bounds of every item of the domain at every purge, merge and checkpoint; frequent_items lists vs truth",
+         EXPL + "Weighted streams of six shapes (incl. all-equal weights that make a purge remove every counter) into 1..5 sketches of equal or different sizes, item types i64/u64/String, optional round trips, random merge order with further updates.",
+         "Trusted: exact HashMap model; domain <= 4096 items so that every item (seen or not) is checked.",
+         "DESIGN.md 5 (C07)"),
+ "C08": ("runtime reference-model monitor: exact counter-table model (documented bucket rule with reference hashes) vs table parsed from the image; one-sided guarantee for every item; tail clause by binomial test",
+         EXPL + "Histories of update / merge / halve / decay / round trip over num_hashes x num_buckets x seeds x all 8 counter types, including histories in the upper half of the counter range.",
+         "Trusted: table model and reference MurmurHash3; image layout (16-byte preamble, total, row-major counters) as decoded by the harness.",
+         "DESIGN.md 5 (C08)"),
+ "C09": ("runtime reference-model monitor: reference-position bit-array model (XXH64) vs bit array parsed from the image; membership of inserted and arbitrary items; measured fpp of with_accuracy cells",
+         EXPL + "Histories of insert / contains_and_insert / union / intersect / invert / reset / round trip on filters of 1..65536 bits (non-multiples of 64 included), 1..16 hashes, six item kinds with assorted write patterns, with a compatible partner.",
+         "Trusted: bit model and reference XXH64; fpp clause is statistical (mean over >= 20 filters, 1.3p + 6 sigma).",
+         "DESIGN.md 5 (C09)"),
+ "C10": ("runtime invariant monitor over dense query grids: monotonicity / range / cdf-pmf-rank consistency / rank(quantile(q)) resolution on TDigestMut and TDigest, for streamed, merged, frozen, round-tripped digests and digests deserialized from spec-encoded images",
+         EXPL + "Universal shape-of-answer statements are checked on grids of q and v (centroid means +-1ulp, midpoints, extremes, outside) at checkpoints of generated histories and on synthetic images of nine classes in four encodings.",
+         "Trusted: t-digest spec codec (harness/src/spec/tdigest.rs) used to read the centroid list and to encode synthetic images; float slack 1e-12 relative on monotonicity; resolution tolerance stated in DESIGN.md.",
+         "DESIGN.md 5 (C10)"),
+ "C15": ("runtime monitor against exact sorted data: centroid count / image size / weight sum / order, and rank error vs the exact empirical distribution within 3 x the k2-scale resolution",
+         EXPL + "Streams of 16 shapes up to 1e5 (1e6 thorough) values, streamed with checkpoints or split over merge trees of 2..16 digests, k in {10..500}.",
+         "Trusted: exact sorted data, spec decoder. Two extreme-dynamic-range shapes are listed as open known findings (known_findings.json); every other shape is held to the clause.",
+         "DESIGN.md 5 (C15)"),
  "C16": ("runtime differential monitor: library hashers and derived slot/row/bucket values vs independent reference hashes over generated (bytes, seed, chunking) cases",
-         "Exploration. Every (byte string, seed, chunking) fed to the crate's streaming MurmurHash3/XXH64 is compared with an independent one-shot reference digest; chunkings are exhaustive for n<=12 and sampled above; derived quantities are observed through the public API/hooks for 15 item types. Bit-exactness is a universal statement over inputs, so sampling plus the exhaustive small sub-space is the strongest this family offers.",
+         EXPL + "Every (byte string, seed, chunking) fed to the crate's streaming MurmurHash3/XXH64 is compared with an independent one-shot reference digest; chunkings are exhaustive for n<=12 and sampled above; derived quantities are observed through the public API/hooks for 15 item types.",
          "Trusted: the reference hashes in harness/src/refhash.rs (self-tested against published vectors at start-up) and the recording hasher. Lengths above 200 bytes are not driven.",
          "DESIGN.md 5 (C16)"),
 }
